@@ -23,6 +23,34 @@ type vStream struct {
 	failAt int // Read calls after this many fail; <0: never
 	short  bool
 	chunk  int // > 0: a Read returns at most this many bytes
+	// endErr != nil: once the data is used up every Read fails with this error
+	// (a transport fault that persists) instead of reporting io.EOF
+	endErr error
+}
+
+// vTimeoutErr is a transport error of the timeout kind (what an expired read
+// deadline yields): a net.Error whose Timeout() is true. An expired deadline
+// persists: every later read fails the same way.
+type vTimeoutErr struct{}
+
+func (vTimeoutErr) Error() string   { return "verif: i/o timeout" }
+func (vTimeoutErr) Timeout() bool   { return true }
+func (vTimeoutErr) Temporary() bool { return true }
+
+// vFaultKind: the identity of a persistent transport fault, the solver's choice.
+func vFaultKind() error {
+	switch vChoose(5) {
+	case 1:
+		vReach("timeout-kind-transport-error")
+		return vTimeoutErr{}
+	case 2:
+		return io.ErrUnexpectedEOF
+	case 3:
+		return net.ErrClosed
+	case 4:
+		return io.ErrClosedPipe
+	}
+	return errVerifIO
 }
 
 var errVerifIO = errors.New("verif: transport failure")
@@ -37,6 +65,9 @@ func (s *vStream) Read(p []byte) (int, error) {
 		return 0, nil
 	}
 	if avail == 0 {
+		if s.endErr != nil {
+			return 0, s.endErr
+		}
 		return 0, io.EOF
 	}
 	max := len(p)
@@ -250,6 +281,10 @@ func vBodyOK(m vMsg) bool {
 			if j < 0 || j+18 > len(b) {
 				return false
 			}
+			// the format code of a field is zero (text) or one (binary)
+			if f := vBE16(b, j+16); f != 0 && f != 1 {
+				return false
+			}
 			i = j + 18
 		}
 		return i == len(b)
@@ -281,7 +316,15 @@ func vBodyOK(m vMsg) bool {
 			return false
 		}
 		n := vBE16(b, 1)
-		return len(b) == 3+2*n
+		if len(b) != 3+2*n || b[0] > 1 {
+			return false
+		}
+		for k := 0; k < n; k++ {
+			if f := vBE16(b, 3+2*k); f != 0 && f != 1 {
+				return false
+			}
+		}
+		return true
 	case 't':
 		if len(b) < 2 {
 			return false
